@@ -1,43 +1,18 @@
 ----------------------------- MODULE MCPathLock -----------------------------
-(* Model-checking harness for PathLock: program families, constants, and a history
-   variable (hidden from the fingerprint by VIEW) so that TLC emits one witness
-   behaviour per distinct terminal state for replay into the real code.          *)
-EXTENDS PathLock, Json, IOUtils
-
-CONSTANTS NThreads, NProcs, NPaths, Family
+(* Model-checking harness for PathLock: a history variable (hidden from the
+   fingerprint by VIEW) so that TLC emits one witness behaviour per distinct
+   terminal state for replay into the real code.                                *)
+EXTENDS MCBase
 
 VARIABLE hist   \* Seq of [t, a, en]: thread, action taken, threads enabled before the step
 
-MCThread == 1..NThreads
-MCProc == 1..NProcs
-PathName(i) == IF i = 1 THEN "/lk/a" ELSE "/lk/b"
-MCPath == {PathName(i) : i \in 1..NPaths}
-\* threads are dealt to processes round-robin from the top: with 3 threads / 2 processes: 1,2 -> p1, 3 -> p2
-MCProcOf == [t \in MCThread |-> IF NProcs = 1 THEN 1 ELSE IF t = NThreads THEN 2 ELSE 1]
-
-Acq(p, sh, bl, re) == [k |-> "acq", p |-> p, sh |-> sh, bl |-> bl, re |-> re]
-Rel == [k |-> "rel", p |-> "", sh |-> FALSE, bl |-> FALSE, re |-> FALSE]
-B == BOOLEAN
-AllAcq == {Acq(p, sh, bl, re) : p \in MCPath, sh \in B, bl \in B, re \in B}
-BlkAcq == {Acq(p, sh, TRUE, re) : p \in MCPath, sh \in B, re \in B}
-One(S) == {<<a, Rel>> : a \in S}
-Nested(S, T) == {<<a, b, Rel, Rel>> : a \in S, b \in T}
-Seq2(S, T) == {<<a, Rel, b, Rel>> : a \in S, b \in T}
-Programs == CASE Family = "one"      -> One(AllAcq)
-              [] Family = "two"      -> One(AllAcq) \cup Nested(AllAcq, AllAcq) \cup Seq2(AllAcq, AllAcq)
-              [] Family = "blocking2" -> One(BlkAcq) \cup Nested(BlkAcq, BlkAcq) \cup Seq2(BlkAcq, BlkAcq)
-              [] Family = "nested"   -> Nested(AllAcq, AllAcq)
-              [] Family = "upgrade1" -> Nested({Acq(PathName(1), TRUE, TRUE, r) : r \in B}, AllAcq)
-              [] Family = "upgrade"  -> Nested({Acq(PathName(1), TRUE, TRUE, r) : r \in B}, AllAcq) \cup One(AllAcq)
-MCProgramsOf == [t \in MCThread |-> Programs]
-
-Act(t, A, name) == A /\ hist' = Append(hist, [t |-> t, a |-> name, en |-> {u \in Thread : ENABLED Step(u)}])
+Act(t, A, name) == A /\ hist' = Append(hist, [t |-> t, a |-> name, en |-> {u \in Thread : En(u)}])
 HNext == \E t \in Thread :
     \/ Act(t, TPoolIn(t), "TPoolIn") \/ Act(t, TAcqSh(t), "TAcqSh") \/ Act(t, TAcqEx(t), "TAcqEx")
     \/ Act(t, TWake(t), "TWake") \/ Act(t, FdIn(t), "FdIn") \/ Act(t, PlIn(t), "PlIn")
     \/ Act(t, PAcq(t), "PAcq") \/ Act(t, PKern(t), "PKern") \/ Act(t, PKGrant(t), "PKGrant")
-    \/ Act(t, Body(t), "Body") \/ Act(t, PRel(t), "PRel") \/ Act(t, PlOut(t), "PlOut")
-    \/ Act(t, FdOut(t), "FdOut") \/ Act(t, TRelSh(t), "TRelSh") \/ Act(t, TPoolOut(t), "TPoolOut")
+    \/ Act(t, OpStart(t), "OpStart") \/ Act(t, PRel(t), "PRel") \/ Act(t, PlOut(t), "PlOut")
+    \/ Act(t, FdOut(t), "FdOut") \/ Act(t, FdClose(t), "FdClose") \/ Act(t, TRelSh(t), "TRelSh") \/ Act(t, TPoolOut(t), "TPoolOut")
 HInit == Init /\ hist = <<>>
 \* programs chosen by the driver (random programs for simulation / larger instances)
 GivenProgs == JsonDeserialize(IOEnv.PROGS)
